@@ -536,5 +536,12 @@ example :
     linarith
   · simp [c0, c1e9, FloatLike.ofInt, FloatLike.toInt]
 
+/-- the `new … = ok mp` hypothesis of `new_wf`, `new_end_command`, `new_history_no_panic`, `new_times_ordered`, … is met
+by `new_example`; what they give for it -/
+example :
+    WF true (⟨⟨0, MILLIMETER true⟩, ⟨0, MILLIMETER_PER_SECOND true⟩, 10000000000, 30000000000, 40000000000,
+      ⟨1/100, MILLIMETER_PER_SECOND_SQUARED true⟩, .position 3⟩ : MotionProfile ℚ) :=
+  new_wf true _ _ _ _ _ new_example
+
 end Examples
 end Rrtk.Thm.C06
